@@ -36,6 +36,7 @@ import (
 	"github.com/yandex/pandora/core/aggregator/netsample"
 	"github.com/yandex/pandora/core/config"
 	"go.uber.org/zap"
+	"go.uber.org/zap/zapcore"
 )
 
 type reqDef struct {
@@ -222,6 +223,19 @@ func tmplPart(p string) string {
 		}
 	case 's':
 		return "{{(index .source.users " + p[1:] + ").name}}"
+	case 'm':
+		// round 4: a template that cannot be used — m1 / m2 / m3 do not PARSE (unclosed action, unknown function, `if`
+		// without a condition): getTemplate fails at every use and must not remember anything; m4 parses and fails when
+		// executed after having written literal text
+		switch p {
+		case "m1":
+			return "x{{.request."
+		case "m2":
+			return "{{nosuchfn 1}}"
+		case "m3":
+			return "y{{if}}z{{end}}"
+		}
+		return "lit-{{index .source.users \"x\"}}"
 	}
 	return p
 }
@@ -353,6 +367,44 @@ func assertYAML(b *strings.Builder, conds []string) {
 
 // bigPad: length of the padding of the large response body (oracle code L)
 const bigPad = 5000
+
+// gunOptions: the config of the gun plugin. go=<letters> switches on options of the gun that must not change what a shot
+// does (round 4):  a / w / e  answlog enabled with filter all / warning / error (written to the null device),
+// t httptrace.trace, u httptrace.dump, d a logger that accepts debug messages (see gunLogger)
+func gunOptions(opts, target string) map[string]any {
+	m := map[string]any{"type": "http/scenario", "target": target}
+	al := map[string]any{}
+	ht := map[string]any{}
+	for _, c := range opts {
+		switch c {
+		case 'a', 'w', 'e':
+			al["enabled"] = true
+			al["path"] = os.DevNull
+			al["filter"] = map[rune]string{'a': "all", 'w': "warning", 'e': "error"}[c]
+		case 't':
+			ht["trace"] = true
+		case 'u':
+			ht["dump"] = true
+		}
+	}
+	if len(al) > 0 {
+		m["answlog"] = al
+	}
+	if len(ht) > 0 {
+		m["httptrace"] = ht
+	}
+	return m
+}
+
+// gunLogger: go=…d… gives the gun a logger at debug level (BaseGun.Bind then sets DebugLog: the verbose branches of
+// shootStep run, the response body is read also for steps without postprocessors); the output is discarded
+func gunLogger(opts string) *zap.Logger {
+	if !strings.Contains(opts, "d") {
+		return zap.NewNop()
+	}
+	enc := zapcore.NewJSONEncoder(zap.NewProductionEncoderConfig())
+	return zap.New(zapcore.NewCore(enc, zapcore.AddSync(io.Discard), zapcore.DebugLevel))
+}
 
 type gunConf struct {
 	Gun func() (core.Gun, error) `config:"gun"`
@@ -595,7 +647,7 @@ func runGun(kv map[string]string) (obs string) {
 			srv.Start()
 			defer srv.Close()
 			var gc gunConf
-			err := config.Decode(map[string]any{"gun": map[string]any{"type": "http/scenario", "target": srv.Listener.Addr().String()}}, &gc)
+			err := config.Decode(map[string]any{"gun": gunOptions(kv["go"], srv.Listener.Addr().String())}, &gc)
 			if err != nil {
 				result = "err=gunconf:" + esc(err.Error())
 				return
@@ -605,7 +657,7 @@ func runGun(kv map[string]string) (obs string) {
 				result = "err=gun:" + esc(err.Error())
 				return
 			}
-			if err := g.Bind(netsample.WrapAggregator(in), core.GunDeps{Ctx: ctx, Log: zap.NewNop(), InstanceID: i, PoolID: "p"}); err != nil {
+			if err := g.Bind(netsample.WrapAggregator(in), core.GunDeps{Ctx: ctx, Log: gunLogger(kv["go"]), InstanceID: i, PoolID: "p"}); err != nil {
 				result = "err=bind:" + esc(err.Error())
 				return
 			}
@@ -621,6 +673,18 @@ func runGun(kv map[string]string) (obs string) {
 				defer func() {
 					if r := recover(); r != nil {
 						panics[i] = panicClass(r)
+					}
+				}()
+				// ub=1 (round 4): upper bound of the pauses, see pauseTooLong
+				var gapLog [][]time.Duration
+				var sleepsOf []time.Duration
+				defer func() {
+					if kv["ub"] == "1" {
+						in.mu.Lock()
+						for _, k := range pauseTooLong(gapLog, sleepsOf) {
+							in.events = append(in.events, "V~long~"+strconv.Itoa(k))
+						}
+						in.mu.Unlock()
 					}
 				}()
 				for j := i; j < len(ammos); j += nInst {
@@ -641,6 +705,7 @@ func runGun(kv map[string]string) (obs string) {
 							okSteps++
 						}
 					}
+					var gaps []time.Duration
 					for k := 0; k < okSteps && k < len(in.rtimes) && k < len(a.Requests); k++ {
 						next := t1
 						if k+1 < len(in.rtimes) {
@@ -648,6 +713,14 @@ func runGun(kv map[string]string) (obs string) {
 						}
 						if next.Sub(in.rtimes[k]) < a.Requests[k].Sleep {
 							in.events = append(in.events, "V~pause~"+strconv.Itoa(k))
+						}
+						gaps = append(gaps, next.Sub(in.rtimes[k]))
+					}
+					if okSteps == len(a.Requests) && len(gaps) == len(a.Requests) {
+						gapLog = append(gapLog, gaps)
+						sleepsOf = sleepsOf[:0]
+						for _, rq := range a.Requests {
+							sleepsOf = append(sleepsOf, rq.Sleep)
 						}
 					}
 					if okSteps == len(a.Requests) && t1.Sub(t0) < a.MinWaitingTime {
@@ -684,6 +757,52 @@ func runGun(kv map[string]string) (obs string) {
 		}
 	}()
 	return result
+}
+
+// pauseTooLong (round 4, cases with ub=1: one instance, one scenario, every shot successful): the steps whose pause was
+// LONGER than stated. gaps[shot][k] = time from the receipt of request k to the receipt of the next one (or the end of
+// the shot). The overhead of a step at the time of the case is calibrated by the steps WITHOUT a stated pause of the same
+// shots (o = their largest gap); a step with a stated pause P >= 40 ms is reported only when in EVERY one of at least three
+// shots its gap exceeded P + 4*o + 50 ms — a loaded machine inflates o and with it the bound (then nothing is reported),
+// a gun that sleeps twice the stated time, or sleeps in a coarser unit, exceeds it on every shot.
+func pauseTooLong(gaps [][]time.Duration, sleeps []time.Duration) []int {
+	if len(gaps) < 3 {
+		return nil
+	}
+	var o time.Duration
+	calibrated := false
+	for _, g := range gaps {
+		if len(g) != len(sleeps) {
+			return nil
+		}
+		for k, d := range g {
+			if sleeps[k] == 0 {
+				calibrated = true
+				if d > o {
+					o = d
+				}
+			}
+		}
+	}
+	if !calibrated {
+		return nil
+	}
+	var out []int
+	for k, p := range sleeps {
+		if p < 40*time.Millisecond {
+			continue
+		}
+		min := gaps[0][k]
+		for _, g := range gaps[1:] {
+			if g[k] < min {
+				min = g[k]
+			}
+		}
+		if min > p+4*o+50*time.Millisecond {
+			out = append(out, k)
+		}
+	}
+	return out
 }
 
 var _ = bufio.NewReader
